@@ -46,7 +46,8 @@ def rust_ty(ty, first_usize=False):
 SPELL_FNS = ("const fn sp_even(x: &u64) -> bool { *x % 2 == 0 } const fn sp_add1(x: u64) -> u64 { x + 1 } "
              "const fn sp_third(x: u64) -> Option<u64> { if x % 3 == 0 { None } else { Some(x) } } "
              "const fn sp_pair(x: u64) -> std::ops::Range<u64> { x..x + 2 } "
-             "const fn sp_lt2(x: &u64) -> bool { *x < 2 } const fn sp_lt3(x: &u64) -> bool { *x < 3 } ")
+             "const fn sp_lt2(x: &u64) -> bool { *x < 2 } const fn sp_lt3(x: &u64) -> bool { *x < 3 } "
+             "const fn sp_even_v(x: u64) -> bool { x % 2 == 0 } const fn sp_fold(acc: u64, e: u64) -> u64 { (acc * 3 + e) % 1000003 } ")
 
 
 def spelled(k, n, mode):
@@ -125,7 +126,28 @@ def real_ty(chain):
     return ty
 
 
-def consumer_text(cons, n, ty, std):
+def consumer_spelled(cons, mode):
+    """consumer closures on scalar items in another spelling (1 typed parameter, 2 return type + block, 3 function)"""
+    ev = ("|v: u64| v % 2 == 0", "|v| -> bool { v % 2 == 0 }", "sp_even_v")
+    evr = ("|v: &u64| *v % 2 == 0", "|&v| -> bool { v % 2 == 0 }", "sp_even")
+    table = {
+        "all": ["all(%s)" % x for x in ev], "any": ["any(%s)" % x for x in ev],
+        "position": ["position(%s)" % x for x in ev], "rposition": ["rposition(%s)" % x for x in ev],
+        "find": ["find(%s)" % x for x in evr], "rfind": ["rfind(%s)" % x for x in evr],
+        "find_map": ["find_map(|v: u64| { if v % 3 == 0 { None } else { Some(v) } })",
+                     "find_map(|v| -> Option<u64> { if v % 3 == 0 { None } else { Some(v) } })", "find_map(sp_third)"],
+        "fold": ["fold(1u64, |acc: u64, e: u64| { (acc * 3 + e) % 1000003 })", "fold(1u64, |acc, e| -> u64 { (acc * 3 + e) % 1000003 })",
+                 "fold(1u64, sp_fold)"],
+        "rfold": ["rfold(1u64, |acc: u64, e: u64| { (acc * 3 + e) % 1000003 })", "rfold(1u64, |acc, e| -> u64 { (acc * 3 + e) % 1000003 })",
+                  "rfold(1u64, sp_fold)"],
+    }
+    return table[cons][mode - 1] if cons in table else None
+
+
+def consumer_text(cons, n, ty, std, spell=0):
+    if spell and not std and ty == U and consumer_spelled(cons, spell):
+        post = ("v", "v") if cons in ("find", "rfind") else None
+        return consumer_spelled(cons, spell), post
     p, key = pat_key(ty, Names())
     if cons == "all":
         return "all(|%s| %s %% 2 == 0)" % (p, key), None
@@ -210,13 +232,15 @@ def case(r, hyg=None, spell=0):
               % ("".join("." + x for x in sparts), p, key))
         call = "format!(\"K:{};S:{}\", kall(), INS.iter().map(|i| s(i)).collect::<Vec<_>>().join(\"|\"))"
     else:
-        ct, post = consumer_text(cons, n, ty, False)
+        ct, post = consumer_text(cons, n, ty, False, spell)
         postk = (".map(|%s| %s)" % post) if post else ""
+        cts, posts = consumer_text(cons, n, ty, True)
+        postks = (".map(|%s| %s)" % posts) if posts else ""
         kf = ("fn k(inp: &[u64]) -> String { " + cnts + " format!(\"{:?}\", konst::iter::eval!(inp, copied()%s, %s)%s) }"
               % ("".join(", " + x for x in kparts), ct, postk))
         # std: rposition needs the documented semantics only for the guard; it is skipped there
         sf = ("fn s(inp: &[u64]) -> String { " + cnts + " format!(\"{:?}\", inp.iter().copied()%s.%s%s) }"
-              % ("".join("." + x for x in sparts), ct, postk))
+              % ("".join("." + x for x in sparts), cts, postks))
         call = "format!(\"K:{};S:{}\", INS.iter().map(|i| k(i)).collect::<Vec<_>>().join(\"|\"), INS.iter().map(|i| s(i)).collect::<Vec<_>>().join(\"|\"))"
     ins = "const INS: &[&[u64]] = &[%s];" % ", ".join("&[%s]" % ", ".join("%du64" % x for x in i) for i in INPUTS)
     body = "%s %s %s %s %s" % (pre, ins, kf, sf, call)
